@@ -291,6 +291,57 @@ def main():
         if obs["error"] or [x["tag"] for x in obs["img"]] != [da[2]["tag"], db[1]["tag"]]:
             h.violation("cli:e2e", f"--hdu-index 2,1 over two files loaded {obs['error'] or [x['tag'] for x in obs['img']]}, expected tags {[da[2]['tag'], db[1]['tag']]}", input="2,1")
         h.case(("cli-e2e",))
+        # histories in one process: no selection, then an explicit selection, then no selection again — on the same files
+        try:
+            o1 = observe(collection.load([pa, pb]), [pa, pb])
+            o2 = observe(collection.load([pa, pb], hdu_index=[2, 1]), [pa, pb])
+            o3 = observe(collection.load([pa, pb]), [pa, pb])
+            h.case(("history", "default-explicit-default"))
+            h.count("history", "default-explicit-default")
+            t1, t2, t3 = ([x["tag"] for x in o["img"]] if not o["error"] else o["error"] for o in (o1, o2, o3))
+            if t2 != [da[2]["tag"], db[1]["tag"]]:
+                h.violation("history:explicit", f"load(hdu_index=[2, 1]) after a load without selection read {t2}, expected {[da[2]['tag'], db[1]['tag']]}", input="default, [2,1]")
+            if t3 != t1 or t1 != [da[1]["tag"], db[1]["tag"]]:
+                h.violation("history:default", f"load without a selection read {t1}; after an intervening load(hdu_index=[2, 1]) of the same files it reads {t3} (the first image HDUs are {[da[1]['tag'], db[1]['tag']]})",
+                            input={"history": ["load([a,b])", "load([a,b], hdu_index=[2,1])", "load([a,b])"]})
+        except Exception as e:
+            h.violation("history:crash", f"repeated loads of the same files raised {type(e).__name__}: {e}", input="history")
+        # the `toasty view` command line: what reaches the tiler is the user's list of files, positionally, with the per-file
+        # selections — including the same file named twice to pick two of its HDUs (the tiler itself is replaced by a recorder)
+        try:
+            from toasty import cli
+            import toasty.fits_tiler as FT
+            import contextlib
+            import io
+            captured = {}
+
+            class RecordingTiler:
+                def __init__(self, coll, **kw):
+                    captured["coll"] = coll
+                    self.out_dir = d
+
+                def tile(self, **kw):
+                    pass
+            for argv_sel, paths, want_sel in ((["--hdu-index", "1,2"], [pa, pa], [(pa, 1), (pa, 2)]),
+                                              (["--hdu-index", "2,1,2"], [pa, pb, pa], [(pa, 2), (pb, 1), (pa, 2)]),
+                                              (["--hdu-index", "1"], [pb, pa], [(pb, 1), (pa, 1)])):
+                captured.clear()
+                real = FT.FitsTiler
+                FT.FitsTiler = RecordingTiler
+                try:
+                    with contextlib.redirect_stdout(io.StringIO()), contextlib.redirect_stderr(io.StringIO()):
+                        cli.entrypoint(["view", "--tile-only", "--tiling-method", "tan"] + argv_sel + paths)
+                finally:
+                    FT.FitsTiler = real
+                coll2 = captured.get("coll")
+                got_sel = [(p_, int(i_)) for (p_, i_) in coll2.export_simple()] if coll2 is not None else None
+                h.case(("cli-view", tuple(argv_sel), len(paths)))
+                h.count("cli", "view")
+                if got_sel != want_sel:
+                    h.violation("cli:view", f"`toasty view {' '.join(argv_sel)}` over {[os.path.basename(p_) for p_ in paths]} hands the tiler {None if got_sel is None else [(os.path.basename(p_), i_) for p_, i_ in got_sel]}, "
+                                f"the user selected {[(os.path.basename(p_), i_) for p_, i_ in want_sel]}", input={"argv": argv_sel, "files": [os.path.basename(p_) for p_ in paths]})
+        except BaseException as e:  # noqa
+            h.violation("cli:view:crash", f"`toasty view --tile-only` raised {type(e).__name__}: {e}", input="view")
         try:
             import toasty
             import toasty.par_util
